@@ -29,6 +29,7 @@ func init() {
 		QuickSecs:    60,
 		ThoroughSecs: 1200,
 		MaxChoices:   400000,
+		DeadlockPred: "C14:deadlock",
 		Run:          runC14,
 	})
 }
